@@ -758,7 +758,13 @@ impl<T> TooDee<T> {
     {
         assert!(index < self.num_rows);
         let start = index * self.num_cols;
-        let drain = self.data.drain(start..start + self.num_cols);
+        // Move the row to the end first, so that the `Drain` covers the tail of the vector. `Vec::drain`
+        // truncates the vector up front and restores the part behind the drained range only in its
+        // destructor; if the drain is leaked (`mem::forget`) the vector is then left holding exactly
+        // the remaining whole rows, in agreement with the dimensions.
+        self.data[start..].rotate_left(self.num_cols);
+        let new_len = self.data.len() - self.num_cols;
+        let drain = self.data.drain(new_len..);
         self.num_rows -= 1;
         if self.num_rows == 0 {
             self.num_cols = 0;
@@ -819,18 +825,24 @@ impl<T> TooDee<T> {
     {
         assert!(index < self.num_cols);
 
-        let v = &mut self.data;
         let num_cols = self.num_cols;
-        let slice_len = v.len() - num_cols + 1;
+        let num_rows = self.num_rows;
+        let slice_len = self.data.len() - num_cols + 1;
         unsafe {
             // set the vec length to 0 to amplify any leaks
-            v.set_len(0);
+            self.data.set_len(0);
+            // ... and keep the dimensions in agreement with it: if the `DrainCol` is leaked, its
+            // destructor never restores the array, which must then be a valid empty array.
+            self.num_cols = 0;
+            self.num_rows = 0;
             DrainCol {
                iter : Col {
                    skip : num_cols - 1,
-                   v : slice::from_raw_parts_mut(v.as_mut_ptr().add(index), slice_len),
+                   v : slice::from_raw_parts_mut(self.data.as_mut_ptr().add(index), slice_len),
                },
                col : index,
+               num_cols,
+               num_rows,
                toodee : NonNull::from(self),
             }
         }
@@ -1035,6 +1047,10 @@ pub struct DrainCol<'a, T> {
     /// Current remaining elements to remove
     iter: Col<'a, T>,
     col: usize,
+    /// Dimensions of the array before the column was removed (the array itself reports `(0, 0)`
+    /// until this drain is dropped).
+    num_cols: usize,
+    num_rows: usize,
     toodee: NonNull<TooDee<T>>,
 }
 
@@ -1079,6 +1095,8 @@ impl<T> Drop for DrainCol<'_, T> {
                 self.0.for_each(drop);
                 
                 let col = self.0.col;
+                let orig_cols = self.0.num_cols;
+                let num_rows = self.0.num_rows;
 
                 unsafe {
                     
@@ -1088,10 +1106,7 @@ impl<T> Drop for DrainCol<'_, T> {
 
                     let mut dest = vec.as_mut_ptr().add(col);
                     let mut src = dest.add(1);
-                    let orig_cols = toodee.num_cols;
                     let new_cols = orig_cols - 1;
-                    
-                    let num_rows = toodee.num_rows;
                     
                     for _ in 1..num_rows {
                         ptr::copy(src, dest, new_cols);
@@ -1101,10 +1116,9 @@ impl<T> Drop for DrainCol<'_, T> {
                     
                     ptr::copy(src, dest, orig_cols - col - 1);
                     
-                    toodee.num_cols -= 1;
-                    if toodee.num_cols == 0 {
-                        toodee.num_rows = 0;
-                    }
+                    // restore the dimensions, without the removed column
+                    toodee.num_cols = new_cols;
+                    toodee.num_rows = if new_cols == 0 { 0 } else { num_rows };
 
                     // Set the new length based on the col/row counts
                     vec.set_len(toodee.num_cols * toodee.num_rows);
